@@ -103,3 +103,63 @@ class VerifyThreshold(Obligation):
             r,m=run.check_sat(z3.BoolVal(True))
             if r==z3.sat: rec['sample']={'scenario':self.scenario(run,g,m),'expect':'ok' if oc=='ok' else 'err'}
         return rec
+
+class ReplayAcrossCalls(VerifyThreshold):
+    """two calls in one process (statics and thread-locals are shared within a run): a block is verified, then ANOTHER block with
+    different content that carries the very same signature values.  No signature was made over the second content, so the second
+    call must fail whatever the first one established."""
+    name='C04.signatures_replayed_on_other_content'
+    hash_order='fixed'
+    def __init__(self,**kw):
+        VerifyThreshold.__init__(self,**kw); self.name='C04.signatures_replayed_on_other_content'
+        self.bounds={'sequence':'Metablock::verify(block 1) then Metablock::verify(block 2) in one process','block 2':'other content, the same signature list (same key ids, same signature bytes)','signatures':'1..2, made over the content of block 1, free made_by / intact',
+                     'keys':'2 pool keys, both authorized; key types / schemes ed25519, RSA-PSS-SHA256 (the scheme is part of what a signature was made with)','threshold':'any u32'}
+        self.witnesses=['second_call_rejected','first_call_accepted']
+    def setup(self,eng,tier):
+        self.eng=eng; self.b=B(eng)
+        self.oracle=SigOracle(eng)
+        def to_bytes(e,run,a,f):
+            m=deref(a[0]); nm=byte_list(self.b.get(deref(m.f[0]),'name'))
+            return ok(u8vec([0x4d]+list(nm)))
+        eng.stub(r'MetadataWrapper::to_bytes$',to_bytes,'MetadataWrapper::to_bytes [the link name stands for the content]')
+        self.fn=eng.find_method(None,'Metablock','verify')
+    def entry(self,eng):
+        def go(run,args):
+            mb1,mb2,thr,keys1,keys2=args
+            r1=eng.call_fn(run,self.fn,[Ref(Cell(mb1)),thr,keys1])
+            r2=eng.call_fn(run,self.fn,[Ref(Cell(mb2)),copy_val(thr),keys2])
+            return (r1,r2)
+        return go
+    def mk_args(self,run):
+        b=self.b; nk=2
+        sch=['Ed25519','RsaSsaPssSha256'][run.pick(2,'scheme')]; typ={'Ed25519':'Ed25519','RsaSsaPssSha256':'Rsa'}[sch]
+        keys=[b.pubkey(pool_keyid(i),typ=typ,scheme=sch,value=bytes([i])) for i in range(nk)]
+        ns=1+run.pick(2,'nsigs'); run.ghost['sigs']={}
+        over=[0x4d]+list(b'one')
+        mk_sigs=lambda: [b.signature(pool_keyid(j),value=bytes([j])) for j in range(ns)]
+        for j in range(ns):
+            run.ghost['sigs'][j]={'made_by':z3.BitVec('made_by_%d'%j,8),'intact':z3.Bool('intact_%d'%j),'over_bytes':over,'scheme':z3.BitVecVal(self.eng.enums['SignatureScheme'].index(sch),8)}
+            run.add(z3.ULE(run.ghost['sigs'][j]['made_by'],nk))
+        mb1=b.metablock(b.wrap_link(b.link('one',command=['x'])),mk_sigs()); mb2=b.metablock(b.wrap_link(b.link('two',command=['x'])),mk_sigs())
+        thr=Int(32,False,z3.BitVec('threshold',32))
+        K=lambda: VecO([Ref(Cell(k)) for k in keys])
+        return [mb1,mb2,thr,K(),K()],{'thr':thr,'ns':ns,'scheme':sch}
+    def check(self,run,out,g):
+        rec={'outcome':'?','viol':None,'wit':[],'sample':None,'obl':1}
+        def scn(m): return {'kind':'metablock_verify','npool':2,'threshold':model_value(m,g['thr'].v),'auth':[0,1],'iter':'vec','replay_on_other_content':True,'scheme':g['scheme'],
+                            'sigs':[{'label':j,'made_by':model_value(m,s['made_by']),'intact':bool(model_value(m,s['intact'])),'over':True} for j,s in sorted(run.ghost['sigs'].items())]}
+        if out[0]!='ret':
+            r,m=run.check_sat(z3.BoolVal(True))
+            rec['outcome']='panic'; rec['viol']={'kind':'panic','known_key':None,'scenario':scn(m),'predicted':'panic','what':'Metablock::verify panics: '+str(out[1])[:200]}; return rec
+        r1,r2=out[1]; o1=deref(r1).vname; o2=deref(r2).vname; rec['outcome']=o1+'|'+o2
+        def wit(n):
+            if n not in self.seen: self.seen.add(n); rec['wit'].append(n)
+        if o2=='Ok':
+            r,m=run.check_sat(z3.BoolVal(True))
+            rec['viol']={'kind':'signature_accepted_over_other_content','known_key':None,'scenario':scn(m),'predicted':'ok','what':'a block whose signatures were all made over OTHER content verifies (after a block with the genuine content was verified earlier in the same process: %s)'%o1}; return rec
+        wit('second_call_rejected')
+        if o1=='Ok': wit('first_call_accepted')
+        if is_sample(run,self.seed,3):
+            r,m=run.check_sat(z3.BoolVal(True))
+            if r==z3.sat: rec['sample']={'scenario':scn(m),'expect':'err'}
+        return rec
